@@ -321,8 +321,11 @@ class ParseContext:
         import_source=self._import_source(source, attr_names),
         avoid_class_mutation=True)
     if original is not None:  # We've re-registered something...
+      # Point existing references at the new registration. (Don't re-resolve
+      # their selectors: they may have been written in another file, whose
+      # imports the current parse context doesn't share.)
       for reference in iterate_references(_CONFIG, to=original.wrapper):
-        reference.initialize()
+        reference.initialize(_INVERSE_REGISTRY[fn_or_cls])
 
     if inspect.isfunction(fn_or_cls) and inspect.isclass(path_attrs[-1]):  # pytype: disable=not-supported-yet
       self._register(attr_names[:-1], attr_values[:-1])
@@ -717,9 +720,18 @@ class ConfigurableReference:
     self._evaluate = evaluate
     self.initialize()
 
-  def initialize(self):
+  def initialize(self, configurable_=None):
+    """(Re-)initializes this reference.
+
+    Args:
+      configurable_: If given, the `Configurable` this reference should point to
+        (used when its target was re-registered); otherwise the selector is
+        resolved in the current parse context.
+    """
     *self._scopes, self._selector = self._scoped_selector.split('/')
-    self._configurable = _parse_context().get_configurable(self._selector)
+    if configurable_ is None:
+      configurable_ = _parse_context().get_configurable(self._selector)
+    self._configurable = configurable_
     if not self._configurable:
       _raise_unknown_reference_error(self)
     self._scoped_configurable_fn = _decorate_with_scope(
